@@ -232,7 +232,10 @@ def apply_observe(sess, op):
             if "C16" in E:
                 sess.fail("C16", "solve-succeeds", "solve() raised %s(%s) after a successful edit history" % (r[1], r[2]))
             if "C03" in E:
-                sess.fail("C03", "raises-only-documented", "solve() raised %s(%s)" % (r[1], r[2]))
+                sig = ""
+                if r[1] == "TypeError" and any(m.kind(n) == "Rectifier" and isinstance(m.comps[n]["p"].get("rs"), list) for n in m.order):
+                    sig = "rectifier-rs-list"
+                sess.fail("C03", "raises-only-documented", "solve() raised %s(%s)" % (r[1], r[2]), sig=sig)
             if "C05" in E and m.mux() is not None:
                 sess.fail("C05", "mux-is-reported", "solve() raised %s(%s) on a system with a PMux instead of reporting it" % (r[1], r[2]))
         if "C03" in E:
